@@ -3,6 +3,7 @@ import Driver.Seq
 import Driver.Crash
 import Driver.HostFileMode
 import Driver.LinMode
+import Driver.LruMode
 import Qv.Spec.Image
 
 open Qv.Driver
@@ -42,6 +43,10 @@ def main (args : List String) : IO UInt32 := do
     let lines ← IO.FS.lines path
     let dir := (System.FilePath.parent path).map (·.toString) |>.getD "."
     runLin dir lines stdout
+    return 0
+  | ["lru", path] =>
+    let lines ← IO.FS.lines path
+    Qv.Driver.LruMode.runLru lines stdout
     return 0
   | ["hostfile", path] =>
     let lines ← IO.FS.lines path
